@@ -122,8 +122,12 @@ Tex(sd) == [ymode |-> 0, uvmode |-> 0,
             y |-> [k \in 1..16 |-> [j \in 1..16 |-> IF j >= 2 /\ j <= 4 THEN (Rnd(sd + 17 * k + j) % 7) - 3 ELSE 0]],
             u |-> [k \in 1..4 |-> [j \in 1..16 |-> IF j <= 2 THEN (Rnd(sd + 300 + 17 * k + j) % 9) - 4 ELSE 0]],
             v |-> [k \in 1..4 |-> [j \in 1..16 |-> IF j <= 3 THEN (Rnd(sd + 400 + 17 * k + j) % 9) - 4 ELSE 0]]]
-Big(sd) == [Tex(sd) EXCEPT !.y2 = [j \in 1..16 |-> (Rnd(sd + j) % 141) - 70], !.ymode = 1,
-                           !.y = [k \in 1..16 |-> [j \in 1..16 |-> IF j >= 2 THEN (Rnd(sd + 19 * k + j) % 41) - 20 ELSE 0]]]
+\* a macroblock with all 16 Y2 levels and all 15 AC levels of every luma block present.  Magnitudes stay inside the
+\* domain in which 16-bit inverse transforms cannot overflow (the format is specified on mathematical integers; beyond
+\* that domain real decoders differ - known finding of C13): with q <= 60 the dequantised Y2 coefficients add up to
+\* less than 24 000, the coefficients of a luma block (its DC from the WHT included) to less than 15 000.
+Big(sd) == [Tex(sd) EXCEPT !.y2 = [j \in 1..16 |-> (Rnd(sd + j) % 21) - 10], !.ymode = 1,
+                           !.y = [k \in 1..16 |-> [j \in 1..16 |-> IF j >= 2 THEN (Rnd(sd + 19 * k + j) % 11) - 5 ELSE 0]]]
 \* a coded macroblock with no coefficient at all (the package's encoder would mark it skipped instead)
 Flat(ym, uvm) == [ymode |-> ym, uvmode |-> uvm, y2 |-> ZB, y |-> Rep(16, ZB), u |-> Rep(4, ZB), v |-> Rep(4, ZB)]
 Layouts == << [w |-> 16, h |-> 32, mbs |-> <<Tex(1), Flat(2, 2)>>],
@@ -135,7 +139,7 @@ Filters == << [simple |-> FALSE, level |-> 0, sharp |-> 0], [simple |-> TRUE, le
               [simple |-> FALSE, level |-> 20, sharp |-> 0], [simple |-> FALSE, level |-> 50, sharp |-> 3] >>
 NF == Len(Layouts) * Len(Filters)
 FD(i) == LET ly == Layouts[((i - 1) \div Len(Filters)) + 1]  fl == Filters[((i - 1) % Len(Filters)) + 1]
-         IN [w |-> ly.w, h |-> ly.h, mbs |-> ly.mbs, simple |-> fl.simple, level |-> fl.level, sharp |-> fl.sharp, q |-> 30 + 7 * i]
+         IN [w |-> ly.w, h |-> ly.h, mbs |-> ly.mbs, simple |-> fl.simple, level |-> fl.level, sharp |-> fl.sharp, q |-> 20 + 2 * i]
 
 Init == phase = "pick" /\ fidx = 0 /\ vbytes = <<>> /\ vplanes = [ok |-> FALSE]
 Pick == /\ phase = "pick" /\ \E i \in 1..NF : fidx' = i
